@@ -17,7 +17,7 @@
 (***************************************************************************)
 EXTENDS Machine, NumInt, Json
 
-CONSTANTS KIND,          \* "NN" | "NC" | "CC"
+CONSTANTS KIND,          \* "NN" | "NC" | "CC" | "AL" (alias: the cw20 token tA and the bank denom spelled "tA")
           AMTS,          \* amounts operations may name
           MAXSTEPS,      \* depth bound
           COMMISSION,    \* commission atomics (0..DFRAC)
@@ -32,9 +32,9 @@ PAIR == "pair"
 LP == "lp"
 FAC == "fac"
 RTR == "rtr"
-TokensUsed == IF KIND = "NN" THEN {} ELSE IF KIND = "NC" THEN {"tA"} ELSE {"tA", "tB"}
-A0 == IF KIND = "CC" THEN Token("tA") ELSE Native("ua")
-A1 == IF KIND = "NN" THEN Native("ub") ELSE IF KIND = "NC" THEN Token("tA") ELSE Token("tB")
+TokensUsed == IF KIND = "NN" THEN {} ELSE IF KIND \in {"NC", "AL"} THEN {"tA"} ELSE {"tA", "tB"}
+A0 == IF KIND \in {"CC", "AL"} THEN Token("tA") ELSE Native("ua")
+A1 == IF KIND = "NN" THEN Native("ub") ELSE IF KIND = "NC" THEN Token("tA") ELSE IF KIND = "AL" THEN Native("tA") ELSE Token("tB")
 AllAccts == Users \cup {PAIR, LP, FAC, RTR} \cup TokensUsed
 
 \* a bank denom spelled like the cw20 address "tA" (kind confusion), when the pair has that token
@@ -43,7 +43,7 @@ DenomsUsed == {"ua", "ub"} \cup (IF KIND = "NN" THEN {} ELSE {"tA"})
 StartBal(a) == CASE a = "lp1" -> 6 [] a = "lp2" -> 4 [] a = "trader" -> 4 [] a = "attacker" -> 3 [] OTHER -> 0
 
 InitWorld ==
-    [ bank |-> [d \in DenomsUsed |-> [a \in AllAccts |-> IF d = "tA" THEN (IF a \in {"attacker", "trader"} THEN 3 ELSE 0) ELSE StartBal(a)]],
+    [ bank |-> [d \in DenomsUsed |-> [a \in AllAccts |-> IF d = "tA" /\ KIND # "AL" THEN (IF a \in {"attacker", "trader"} THEN 3 ELSE 0) ELSE StartBal(a)]],
       tok  |-> [t \in TokensUsed \cup {LP} |->
                   IF t = LP
                   THEN [bal |-> [a \in AllAccts |-> 0], supply |-> 0, decimals |-> 6, minter |-> PAIR, allow |-> {}]
@@ -52,7 +52,7 @@ InitWorld ==
       pair |-> (PAIR :> [a0 |-> A0, a1 |-> A1, d0 |-> 1, d1 |-> 0, lp |-> LP, self_lp |-> LP, commission |-> COMMISSION,
                          wl |-> {"lp1"}, m0 |-> 2, m1 |-> 1]),
       fac  |-> [addr |-> FAC, owner |-> "own", pair_code |-> 2, token_code |-> 4,
-                native |-> ("ua" :> 1 @@ "ub" :> 0), reg |-> <<>>],
+                native |-> ("ua" :> 1 @@ "ub" :> 0 @@ (IF KIND = "AL" THEN "tA" :> 0 ELSE <<>>)), reg |-> <<>>],
       router |-> RTR,
       nextc |-> 9,
       light |-> FALSE ]
